@@ -248,7 +248,7 @@ func c13Run(c c13in) func(w *World) []Violation {
 				add("request-header-altered "+k, fmt.Sprintf("target saw %q, client sent %q", ev.Header[k], v))
 			}
 		}
-		if c.hdr == 5 && (ev.Header.Get("X-Hop") != "" ) {
+		if c.hdr == 5 && (ev.Header.Get("X-Hop") != "") {
 			add("hop-by-hop-header-forwarded", fmt.Sprintf("X-Hop=%q", ev.Header.Get("X-Hop")))
 		}
 		// forwarding headers
